@@ -44,7 +44,7 @@ var configs = map[string]*propConfig{
 		id: "C12", level: "exploration", checkptr: "1", plain: true, race: true,
 		quickRuns: 12000, thorRuns: 400000, quickRace: 6000, thorRace: 150000,
 		memKB: 6 << 20, quickWall: 80 * time.Second, thorWall: 30 * time.Minute, runTimeout: 60 * time.Second,
-		stall: 30 * time.Second, gomaxprocs: 8,
+		stall: 120 * time.Second, gomaxprocs: 8,
 		rule: "one run = 2..6 tasks (real goroutines, exactly one running, handed off through raw pipe syscalls that ThreadSanitizer cannot see) x 1..6 operations each, drawn from the derived read-only catalogue (every exported package function and every method of the shared value, of its language-value / item-list / id sub-values and of collection paths whose arguments can be synthesised by type, minus the justified mutator list; fmt verbs; decoding of private clean or damaged inputs), on a generated shared value v and a second value w (v itself, the smallest value, or an independent one), under a scheduling policy drawn per run: random walk (switch probability 1/4..1/256 per library statement), d=1..4 preemptions at drawn task-local steps, or PCT with d=1..3 priority change points. distinct = distinct hash of the switch sequence (from,to,site)*; non-trivial = at least one context switch fell inside an operation on the shared value.",
 		assumptions: []string{
 			"preemption granularity is one library statement; segments inside dependencies (fastjson, jsonld, encoding/gob, fmt) are atomic in the simulation, though ThreadSanitizer still sees their memory accesses",
@@ -59,13 +59,13 @@ var configs = map[string]*propConfig{
 		id: "C04", level: "fault_enumeration", checkptr: "1", plain: true,
 		quickRuns: 250000, thorRuns: 6000000, enumQuick: true, enumThor: true,
 		memKB: 6 << 20, quickWall: 80 * time.Second, thorWall: 25 * time.Minute, runTimeout: 30 * time.Second,
-		blackbox: true, stall: 20 * time.Second,
+		blackbox: true, stall: 90 * time.Second,
 		rule: "writer -> faulty wire/disk -> reader. Enumeration tier: a corpus of clean messages (for every exported decode entry point three generated values of growing size encoded with the matching encoder, plus every repository mock at pkg.UnmarshalJSON, Object.UnmarshalJSON and one further JSON entry point) x every torn-write point (prefix length 0..len-1) x every single-bit flip x every single-chunk drop / duplicate / zero at chunk sizes 4, 16, 64, at the addressed entry point (thorough: also at the package-level entry point of the codec; quick: only the two smaller value sizes, and messages over 300 bytes are enumerated with a stride). Seeded tier: generated value (or mock) -> 1..3 faults from {truncate, drop/dup/swap/zero chunk, bit flip, stale tail, splice, total loss} with a per-run subset of kinds and chunk size, 1 in 8 runs misdirected to another entry point; a fault-free control configuration runs as a separate mode. Every value a decoder returns is followed up with IsNil, NotEmpty, ItemsEqual(x,x), MarshalJSON, GobEncode, fmt verbs and every read-only niladic method. distinct = distinct (run seed | corpus message, reader entry point, fault program); non-trivial = the damaged bytes differ from the clean bytes and were handed to the decoder.",
 		assumptions: []string{
 			"decides C04 for byte strings within three storage/transport faults of an encoding the library or a repository mock produces, not for all byte strings (hostile shapes no fault produces are outside, DESIGN.md §4.5)",
 			"decode errors and round-trip mismatches are counted, never reported (C01/C03/C05's subject)",
 			"the binary is built with -d=checkptr so that an out-of-bounds pointer view is a deterministic throw",
-			"hang = more than 1000 x the clean decode's steps + 10^6 + 2000 per input byte of executed library statements, or no progress for 20 s of wall clock inside uninstrumented dependencies (re-checked by replay)",
+			"hang = more than 1000 x the clean decode's steps + 10^6 + 2000 per input byte of executed library statements, or no progress for 90 s of wall clock inside uninstrumented dependencies (re-checked by replay)",
 		},
 		realCode: []string{"github.com/go-ap/activitypub (instrumented scratch copy)", "github.com/valyala/fastjson", "github.com/go-ap/jsonld", "encoding/gob", "fmt"},
 		stubCode: []string{"writer (value generator + the library's own encoders)", "wire/disk with fault programs", "reader client"},
@@ -342,7 +342,7 @@ func check(propID, tier string) int {
 				}
 			}
 			if got == 0 {
-				hard = append(hard, fmt.Sprintf("class %s: no replay of the failing run reproduces any violation (minimised: %q, %q)", class, r1.class, r2.class))
+				hard = append(hard, fmt.Sprintf("class %s: no replay of the failing run reproduces any violation (minimised: %q, %q); first report:\n%s", class, r1.class, r2.class, tailStr(f.detail, 6000)))
 				continue
 			}
 			min = plan
